@@ -2,7 +2,7 @@ PROP = "C03"
 LEVEL = "other"
 CONTRACT_MODULES = ["detectors", "menger"]
 DEDUCTIVE = [("detectors", "lemma:menger_elbow_geometry"), ("detectors", "lemma:menger_elbow_corner"),
-             ("detectors", "kneeliverse.menger.knee")]
+             ("detectors", "kneeliverse.menger.knee"), ("menger", "kneeliverse.menger.menger_curvature")]
 EXPLANATION = ("Menger detector: proved for the whole family and beyond (any real slopes s1 != s2, any increasing spacing, arms of any length >= 1 "
                "segment, real arithmetic): lemma menger_elbow_geometry (away from the corner consecutive triples are collinear, at the corner the "
                "cross product is a*b*(s1-s2) != 0) and lemma menger_elbow_corner (with menger.knee's proved postcondition of C09 the returned index "
